@@ -10,6 +10,9 @@ open XsVerif.Props.C15
 #print axioms upaOracle_nondet_sound
 #print axioms edc_spec
 #print axioms checkModel_accepts_edc_direct
+#print axioms checkModel_v11_element_wildcard_never_error
+#print axioms spec_v11_element_wildcard_never_compete
+#print axioms upa_of_disjoint
 #print axioms checkModel_missed_counterexample
 #print axioms checkModel_false_alarm_counterexample
 #print axioms checkModel_false_alarm_root_counterexample
